@@ -236,18 +236,18 @@ Definition dispatch (cmd : string) (args : list sexp) : option sexp :=
           end
       | _, _, _, _, _, _, _, _ => None
       end
-  | "lz", [SA mode; os; self; others; out; names; con; prop; nones; pi; fixh] =>
+  | "lz", [SA mode; os; self; others; out; names; con; prop; nones; pi] =>
       match dec_opts os, dec_lstack self with
       | Some o, Some self =>
           match dec_list (dec_operand (l_sd term self)) others, dec_opt dec_lout out, dec_absent dec_names names,
-                dec_bool con, dec_bool prop, dec_list dec_Z nones, dec_list dec_nat pi, dec_bool fixh with
-          | Some others, Some out, Some names, Some con, Some prop, Some nones, Some pi, Some fixh =>
+                dec_bool con, dec_bool prop, dec_list dec_Z nones, dec_list dec_nat pi with
+          | Some others, Some out, Some names, Some con, Some prop, Some nones, Some pi =>
               let fn := term_fn nones in
               if String.eqb mode "st" then Some (enc_mres enc_lres (of_res (lz_front term o fn con prop self others out names)))
-              else if String.eqb mode "mt" then Some (enc_mres enc_lres (lz_mt_front term o fn fixh con prop self others out names pi))
+              else if String.eqb mode "mt" then Some (enc_mres enc_lres (lz_mt_front term o fn con prop self others out names pi))
               else if String.eqb mode "apply_" then Some (enc_mres enc_lres (of_res (lz_apply_ term o fn con names self others)))
               else None
-          | _, _, _, _, _, _, _, _ => None
+          | _, _, _, _, _, _, _ => None
           end
       | _, _ => None
       end
